@@ -63,7 +63,9 @@ func (impl Implementation) Dgtsv(n, nrhs int, dl, d, du []float64, b []float64, 
 			for j := 0; j < nrhs; j++ {
 				b[(i+1)*ldb+j] -= fact * b[i*ldb+j]
 			}
-			dl[i] = 0
+			if i < n-2 {
+				dl[i] = 0
+			}
 		} else {
 			// Interchange rows i and i+1.
 			fact := d[i] / dl[i]
